@@ -58,6 +58,7 @@ var (
 func Reset() {
 	regMu.Lock()
 	locks = map[unsafe.Pointer]*lockInfo{}
+	onceHeld = map[unsafe.Pointer]bool{}
 	regMu.Unlock()
 	cur.Store(nil)
 	perturbSeed.Store(0)
@@ -196,6 +197,30 @@ func RLock(m tryRLocker, site string) { acquire(key(m), m.TryRLock, site) }
 
 // RUnlock replaces X.RUnlock().
 func RUnlock(m tryRLocker, site string) { k := key(m); m.RUnlock(); release(k); afterRelease(site) }
+
+var onceHeld = map[unsafe.Pointer]bool{}
+
+// OnceDo replaces `go X.Do(f)` on a sync.Once. Concurrent Do calls on one Once wait for each
+// other on the Once's internal mutex, which is not a durable block inside a bubble (and the
+// running one may be parked by the scheduler): callers are serialised here first, waiting durably.
+func OnceDo(o *sync.Once, f func(), site string) {
+	k := unsafe.Pointer(o)
+	acquire(k, func() bool { // called with regMu held
+		if onceHeld[k] {
+			return false
+		}
+		onceHeld[k] = true
+		return true
+	}, site)
+	defer func() {
+		regMu.Lock()
+		delete(onceHeld, k)
+		regMu.Unlock()
+		release(k)
+		afterRelease(site)
+	}()
+	o.Do(f)
+}
 
 // Yield is a schedule point inserted before atomics, after blocking receives and at
 // goroutine starts.
